@@ -8,9 +8,15 @@ S=$(mktemp -d /var/tmp/seedtest.XXXXXX)
 trap 'rm -rf "$S"' EXIT
 rsync -a --exclude .git /repo/ $S/repo/
 cd $S/repo && git init -q . && git add -A >/dev/null && git -c user.email=a@b -c user.name=x commit -qm base
+# (a seed written against an earlier HEAD whose code a later fix: commit rewrote is kept re-expressed on the current HEAD
+#  as patch_on_head.diff beside it)
+alt="$(dirname "$patch")/patch_on_head.diff"
 if ! git apply "$patch" 2>/dev/null; then
-  if ! git apply --3way "$patch" 2>/dev/null; then
-    if ! patch -p1 --fuzz=3 < "$patch" >/dev/null 2>&1; then echo "seed $pid: patch does not apply"; exit 2; fi
+  if ! { [ -f "$alt" ] && git apply "$alt" 2>/dev/null; }; then
+    if ! git apply --3way "$patch" 2>/dev/null; then
+      git checkout -q -- . 2>/dev/null
+      if ! patch -p1 --fuzz=3 < "$patch" >/dev/null 2>&1; then echo "seed $pid: patch does not apply"; exit 2; fi
+    fi
   fi
 fi
 mkdir -p $S/gen $S/evidence /verif/.work
